@@ -268,7 +268,7 @@ def run_case(case):
             sigs.add(f"{form}|{kind}|{tr}|{','.join(req_kinds)}")
             if sample_out is None and evs and form in ("unary", "lro"):
                 sample_out = {"file": sm["file"], "form": form, "kind": kind, "request_seen": str(model.parse(sm["req_type"], rdm.unb64(evs[0]["requests"][0])))[:300]}
-    return {"verdict": "violated" if viol else "held", "violations": viol[:20], "evaluations": counters.get("samples_executed", 0),
+    return {"verdict": "violated" if viol else "held", "violations": pipeline.diverse(viol, 40), "evaluations": counters.get("samples_executed", 0),
             "nontrivial_sigs": sorted(sigs), "counters": counters, "sample": sample_out or {"samples": len(script_samples)}}
 
 
